@@ -68,6 +68,19 @@ def expected(is_right, swap, reverse):
     return t, orth, tang, target
 
 
+def inplace_on_source(o):
+    """An augmented assignment (`x *= -1`, `x += ...`) applied to a selection of the data or of the pre-padded array: the
+    selection is a view, so the cells of the source are altered for every later link (and, without pre-padding, for the
+    caller).  Returns a description or None; a selection that was copied first is its own array."""
+    for e in o.events:
+        if e[0] == "inplace-op" and isinstance(e[1], Obj) and e[1].name in ("MAIN", "PARTNER"):
+            ops = [x[0] for x in e[1].eff]
+            if "copy" not in ops and not any(x in ops for x in ("neg", "mult", "rmult", "CONCAT")):
+                return (f"in-place `{ {'Mult': '*', 'Add': '+', 'Sub': '-', 'Div': '/'}.get(e[2], e[2]) }=` on a selection of {e[1].name} ({'.'.join(ops)}), line {getattr(e[3], 'lineno', '?')}: the selection is a view of the "
+                        "pre-padded array, so the neighbour's cells themselves are changed and every later link that reads them (a face that is the source of two links) gets the change again")
+    return None
+
+
 def analyse_cell(P, is_right, swap, reverse, vector):
     table = table_for(is_right, swap, reverse)
     outs = run(P, table, vector=vector)
@@ -94,6 +107,7 @@ def check_link_cells(ctx, P, vectors, rule_of=None, floor_rule="R05.1"):
     kinds = [(sw, rv) for sw in (False, True) for rv in (False, True)]
     n_cells = 0
     verdict = {}  # (side, swap, reverse, vector) -> {rule: message} or {}
+    inplace = {}
     for kl in kinds:
         for kr in kinds:
             for vector in vectors:
@@ -106,6 +120,9 @@ def check_link_cells(ctx, P, vectors, rule_of=None, floor_rule="R05.1"):
                         continue
                     for o in outs:
                         cells = [((False,) + kl, 1), ((True,) + kr, 2)]
+                        ip = inplace_on_source(o)
+                        if ip:
+                            inplace.setdefault(ip.split(", line")[0], ip + f" [{tag}]")
                         if o.kind != "return":
                             for (is_right, swap, reverse), nb in cells:
                                 verdict.setdefault((is_right, swap, reverse, vector), {}).setdefault("R05.1", f"raises {o.value} (line {getattr(getattr(o.exc, 'node', None), 'lineno', '?')}) [{tag}]")
@@ -140,6 +157,10 @@ def check_link_cells(ctx, P, vectors, rule_of=None, floor_rule="R05.1"):
         else:
             ctx.ok(rule_of("R05.1" if vector is None else "R05.5"), f"link kind: {kind}", "in every combination with the other side's link: source cells, depth and along-edge order, sign/partner as the orientation map demands")
     ctx.floor(rule_of(floor_rule), "link cells evaluated (side x kind x other side's kind x input)", n_cells, 32 * len(vectors))
+    for msg in list(inplace.values())[:2]:
+        ctx.report(rule_of("R05.5"), fi, "source arrays are read, never written", msg)
+    if not inplace:
+        ctx.ok(rule_of("R05.5"), "source arrays are read, never written", "no in-place operation on a selection of the data or the pre-padded array")
     _self_link(ctx, P, fi, rule_of)
 
 
@@ -190,13 +211,21 @@ def _check_piece(fs, ft, swap, reverse, vector, t, e_orth, e_tang, along, target
 def _self_link(ctx, P, fi, rule_of):
     """A domain one face wide that is joined to itself: the halo must come from the face's own interior cells at
     the opposite edge - the basic pre-padding (which obeys the axis' rule, not necessarily 'periodic') must not survive."""
+    table = {FACE: {0: {AX: ((0, AX, False), (0, AX, False))}}}
+    # the rule in force for the call is opaque; the Grid-level default is opaque too, or one of the words: what the halo of
+    # a link is made of may depend on neither
+    for gb in (None, "periodic", "fill", "extend"):
+        _self_link_case(ctx, P, fi, rule_of, table, gb)
+
+
+def _self_link_case(ctx, P, fi, rule_of, table, gb):
     from ..affsel import flatten_concat
 
-    table = {FACE: {0: {AX: ((0, AX, False), (0, AX, False))}}}
+    name = "link kind: face joined to itself (same axis, normal)" + (f", Grid default rule {gb!r}" if gb else "")
     try:
-        outs = run(P, table, n_faces=1)
+        outs = run(P, table, n_faces=1, grid_boundary=gb)
     except Unmodelled as e:
-        ctx.unknown(rule_of("R05.1"), "self-link", str(e))
+        ctx.unknown(rule_of("R05.1"), name, str(e))
         return
     bad = None
     for o in outs:
@@ -208,7 +237,7 @@ def _self_link(ctx, P, fi, rule_of):
             _, leaves = flatten_concat(faces[0], FACE, axis_of_dim)
             forms = [norm_form(p) for p in leaves]
         except Unmodelled as e:
-            ctx.unknown(rule_of("R05.1"), "self-link", str(e))
+            ctx.unknown(rule_of("R05.1"), name, str(e))
             return
         dx = lambda st: [s_ for p, s_ in st.sel.items() if axis_of_dim(p) == AX][0]
         if len(forms) != 3:
@@ -216,9 +245,9 @@ def _self_link(ctx, P, fi, rule_of):
         elif [f.face for f in forms] != [0, 0, 0] or dx(forms[0]) != Sel(N, 1, W) or dx(forms[2]) != Sel(W, 1, W) or dx(forms[1]) != Sel(W, 1, N):
             bad = f"self-link halo pieces are {[dx(f) for f in forms]}; expected the face's own interior cells at the opposite edges"
     if bad:
-        ctx.report(rule_of("R05.1"), fi, "link kind: face joined to itself (same axis, normal)", bad)
+        ctx.report(rule_of("R05.1"), fi, name, bad)
     else:
-        ctx.ok(rule_of("R05.1"), "link kind: face joined to itself (same axis, normal)", "halo = own interior cells at the opposite edge, whatever the axis' rule")
+        ctx.ok(rule_of("R05.1"), name, "halo = own interior cells at the opposite edge, whatever the axis' rule")
 
 
 def check_single_links(ctx, P, vectors, rule_of=None, floor_rule="R05.1"):
